@@ -46,7 +46,13 @@ impl Distribution for Pareto {
     type Output = f64;
     /// Samples from the given Pareto distribution using inverse transform sampling.
     fn sample(&self) -> f64 {
-        let u = alea::f64();
+        // the generator yields values in [0, 1): u == 0 would give an infinite draw
+        let u = loop {
+            let u = alea::f64();
+            if u > 0. {
+                break u;
+            }
+        };
         self.minval / u.powf(1. / self.alpha)
     }
 }
